@@ -1,203 +1,1112 @@
 """C09 - level_limit yields the quotient graph and preserves verdicts above the limit.
 
-  C09.R1  every node name reaching a graph sink (add_node / add_edge / has_node / has_edge / get_edge_data / membership / self-edge
-          comparison) during construction has passed the flattening function
-  C09.R2  the self-edge test is made on flattened names and dominates add_edge
-  C09.R3  flattening = first (limit + 1) dotted components, identity without a limit; the function is pure
-  C09.R4  the limit handed to the graph is the user's limit plus the number of dotted components between root_path and module_path;
-          None stays None
+  C09.R1  every node name that reaches the networkx graph during construction (any call on the graph object, membership, subscripts)
+          has passed a truncation that was *verified* by C09.R3 - found by data flow from the constructor's module list and from the
+          accessors of `Import`, never by the name of a helper
+  C09.R2  every edge insertion is guarded by `start != end` on exactly the (flattened) values that are inserted; any other test of the
+          construction code that depends on the limit and decides about a pair of names is tabulated and must be 'both flatten to the
+          same node' (or its negation) - not a string-prefix relation; whether an edge is inserted never depends on reachability
+          (has_path & co.) between its ends
+  C09.R3  whatever turns a raw name into a graph node (method, module-level function, functools.partial, lambda, conditional
+          expression) is tabulated over a finite table of names and limits: identity without a limit, the first limit+1 dotted
+          components otherwise; neither it nor the construction code keeps node names in state shared between graphs
+  C09.R4  tabulated from the public entry points down to the constructor call: the limit the graph receives is the user's limit plus the
+          number of levels between root_path and module_path; None stays None; no offset when the paths coincide
+  C09.R5  the limit acts through the truncation only: an import (a module) is withheld from the graph because of the limit only if
+          the graph would drop it anyway (both ends flatten to the same node)
+
+Anchors: the public class `NetworkxGraph` and its constructor signature, the abstract accessors of `Import`, the public functions
+`get_evaluable_architecture*`, the type of the networkx object, literals.  Private helpers are found by role (reachability, data flow,
+tabulated meaning).
 """
 
 from __future__ import annotations
 
 import ast
+from pathlib import PurePosixPath
 
 from core.effects import Effects
 from core.flow import Flow, Spec
-from core.guards import atom, f_not, implies
-from core.loader import AnalysisError, FuncInfo, Repo, ancestors, calls_in, header, norm, own_nodes, parent
+from core.guards import atom, atoms_of, f_not, implies
+from core.loader import AnalysisError, ClassInfo, FuncInfo, Repo, ancestors, header, norm, own_nodes, parent
 from core.report import Result
+from core.types import elem_type, members
 
-from .common import cfg_of, conds, dotted, guard_formula, is_attr_call, reachable_funcs, stmt_of, types_of, where
+from .c09_eval import POISON, Env, Evaluator, Frame, NativeObj, Obj, Partial, Raised, Unknown
+from .common import callees_of, conds, guard_formula, reachable_funcs, stmt_of, types_of, where
 
 NXGRAPH = "pytestarch.eval_structure.networkxgraph"
+GRAPH_CLASS = "NetworkxGraph"
+ENTRY_MODULE = "pytestarch.pytestarch"
+ENTRIES = ("get_evaluable_architecture", "get_evaluable_architecture_for_module_objects")
 GG = "pytestarch.eval_structure_generation.graph_generation.graph_generator"
-SINKS = {"add_node", "add_edge", "has_node", "has_edge", "get_edge_data", "add_nodes_from", "add_edges_from"}
+IMPORT_CLASS = "pytestarch.eval_structure.types.Import"
+
+LIMITS = (None, 1, 2, 3, 4, 7)
+# test names; consecutive entries are handed to the two ends of a pair: textual-prefix siblings (api / api_v2), names that flatten to the same
+# node up to some level, parent / child, repeated and prefix-of-each-other parts (models / model)
+NAME_POOL = (
+    "proj.core.api.handlers.h", "proj.core.api_v2.schema.s", "proj.core.api.models.user", "proj.core.api.handlers.v2", "x",
+    "pkg.models.model.m.n", "a.b.a.b.c.a.b", "proj.core", "proj.core.api", "k.l.m.n.o.p.q.r.s", "proj.a.__init__", "Pkg.Mod_1.sub2.__main__",
+)
+EDGE_ADDERS = {"add_edge"}
+BULK_EDGE_ADDERS = {"add_edges_from", "add_weighted_edges_from", "add_path", "add_cycle", "add_star", "update"}
+
+
+def _prefixes(name: str) -> list[str]:
+    parts = name.split(".")
+    return [".".join(parts[:i]) for i in range(1, len(parts))]
+
+
+def _model_import(importer: str, importee: str) -> NativeObj:
+    """A model of the abstract `Import` API (the accessors the graph construction may use)."""
+    return NativeObj(
+        f"<Import {importer} -> {importee}>",
+        {"importer": lambda: importer, "importee": lambda: importee, "importer_parent_modules": lambda: _prefixes(importer), "importee_parent_modules": lambda: _prefixes(importee)},
+    )
+
+
+def trunc(name: str, limit: int | None) -> str:
+    """The specification of the truncation."""
+    return name if limit is None else ".".join(name.split(".")[: limit + 1])
+
+
+# --------------------------------------------------------------------------- anchors
+
+
+def graph_class(repo: Repo) -> ClassInfo:
+    m = repo.modules.get(NXGRAPH)
+    if m is not None and GRAPH_CLASS in m.classes:
+        return m.classes[GRAPH_CLASS]
+    cands = [c for c in repo.classes.values() if c.name == GRAPH_CLASS]
+    if len(cands) == 1:
+        return cands[0]
+    raise AnalysisError(f"public class {GRAPH_CLASS} not found")
+
+
+class Ctx:
+    def __init__(self, repo: Repo, res: Result) -> None:
+        self.repo = repo
+        self.res = res
+        self.T = types_of(repo)
+        self.g = graph_class(repo)
+        init = self.repo.lookup_method(self.g, "__init__")
+        if init is None:
+            raise AnalysisError(f"{GRAPH_CLASS}.__init__ not found")
+        self.init = init
+        names = init.param_names[1:]
+        if "level_limit" in names:
+            self.limit_param = "level_limit"
+        elif len(names) >= 3:
+            self.limit_param = names[2]
+        else:
+            raise AnalysisError(f"{GRAPH_CLASS}.__init__ has no level limit parameter")
+        rest = [n for n in names if n != self.limit_param]
+        if len(rest) < 2:
+            raise AnalysisError(f"{GRAPH_CLASS}.__init__: module list / import list parameters not found")
+        self.modules_param, self.imports_param = rest[0], rest[1]
+        self.limit_index = names.index(self.limit_param)
+        it = elem_type(self.T.param_type(init, self.imports_param))
+        self.import_classes = {m[1] for m in members(it) if m[0] == "cls"} or {IMPORT_CLASS}
+
+    # -- roles -------------------------------------------------------------------------------------
+    def is_graph(self, f: FuncInfo, e: ast.AST) -> bool:
+        try:
+            t = self.T.expr(f, e)
+        except Exception:  # noqa: BLE001
+            return False
+        return any(m[0] == "lib" and str(m[1]).startswith("networkx.") and str(m[1]).endswith("Graph") for m in members(t))
+
+    def is_import_value(self, f: FuncInfo, e: ast.AST) -> bool:
+        try:
+            t = self.T.expr(f, e)
+        except Exception:  # noqa: BLE001
+            return False
+        for m in members(t):
+            if m[0] == "cls":
+                ci = self.repo.classes.get(m[1])
+                if ci is not None and any(c.fq in self.import_classes for c in self.repo.mro(ci)):
+                    return True
+        return False
+
+    def ctor_sites(self) -> list[tuple[FuncInfo, ast.Call]]:
+        """Calls outside the graph class that construct the graph."""
+        if getattr(self, "_ctor_sites", None) is None:
+            sites: list[tuple[FuncInfo, ast.Call]] = []
+            for f in self.repo.all_functions():
+                if isinstance(f.node, ast.Lambda) or (f.cls is not None and any(c == self.g for c in self.repo.mro(f.cls))):
+                    continue
+                for c in own_nodes(f.node):
+                    if isinstance(c, ast.Call):
+                        try:
+                            ci = self.T.ctor_class(f, c)
+                        except Exception:  # noqa: BLE001
+                            ci = None
+                        if ci is not None and any(k == self.g for k in self.repo.mro(ci)):
+                            sites.append((f, c))
+            self._ctor_sites = sites
+        return self._ctor_sites
+
+    def sink_events(self, f: FuncInfo) -> list[tuple[ast.AST, str, list[ast.expr]]]:
+        """(node, description, name-carrying argument expressions) of everything `f` asks of / tells the networkx graph."""
+        out: list[tuple[ast.AST, str, list[ast.expr]]] = []
+        for n in own_nodes(f.node):
+            if isinstance(n, ast.Call):
+                if isinstance(n.func, ast.Attribute) and self.is_graph(f, n.func.value):
+                    args = [a.value if isinstance(a, ast.Starred) else a for a in n.args] + [k.value for k in n.keywords]
+                    out.append((n, n.func.attr, args))
+                    continue
+                fq = self.repo.resolve_name(f.module, n.func) if isinstance(n.func, (ast.Name, ast.Attribute)) else None
+                if fq and fq.startswith("networkx.") and n.args and self.is_graph(f, n.args[0]):
+                    args = [a.value if isinstance(a, ast.Starred) else a for a in n.args[1:]] + [k.value for k in n.keywords]
+                    out.append((n, fq, args))
+            elif isinstance(n, ast.Compare) and len(n.ops) == 1 and isinstance(n.ops[0], (ast.In, ast.NotIn)):
+                c = n.comparators[0]
+                if self.is_graph(f, c) or (isinstance(c, ast.Attribute) and self.is_graph(f, c.value)):
+                    out.append((n, "membership", [n.left]))
+            elif isinstance(n, ast.Subscript) and not isinstance(n.slice, ast.Slice):
+                v = n.value
+                if self.is_graph(f, v) or (isinstance(v, ast.Attribute) and self.is_graph(f, v.value)) or (isinstance(v, ast.Subscript) and self.is_graph(f, v.value)):
+                    out.append((n, "subscript", [n.slice]))
+        return out
+
+
+def construction_functions(cx: Ctx) -> list[FuncInfo]:
+    """Functions reachable from the constructor that touch the networkx graph, and everything on the way to them."""
+    reach = list(reachable_funcs(cx.repo, [cx.init], byname=False))
+    has = {f: bool(cx.sink_events(f)) for f in reach}
+    keep = {f for f in reach if has[f]}
+    changed = True
+    while changed:
+        changed = False
+        for f in reach:
+            if f not in keep and any(c in keep for c in callees_of(cx.repo, f, byname=False)):
+                keep.add(f)
+                changed = True
+    keep.add(cx.init)
+    return [f for f in reach if f in keep]
+
+
+# --------------------------------------------------------------------------- R1 / R3: flow + tabulated truncation
+
+
+class Flattening:
+    """Classifies the expressions of the construction code through which the limit acts on names."""
+
+    def __init__(self, cx: Ctx, cons: list[FuncInfo]) -> None:
+        self.cx = cx
+        self.cons = cons
+        self.ev = Evaluator(cx.repo, tolerant=True)
+        self.objs: dict[object, Obj] = {}
+        self.build_error: str | None = None
+        for lim in LIMITS:
+            try:
+                o = self.ev._construct(cx.g, [[], []], {cx.limit_param: lim})
+            except (Unknown, Raised) as e:
+                self.build_error = f"constructor not evaluable for limit {lim}: {e}"
+                break
+            if not isinstance(o, Obj):
+                self.build_error = "constructor did not yield an object"
+                break
+            self.objs[lim] = o
+        self.carriers: set[str] = set()
+        if not self.build_error:
+            keys = set().union(*[set(o.attrs) for o in self.objs.values()])
+            for k in keys:
+                sigs = {self._sig(o.attrs.get(k)) for o in self.objs.values()}
+                if len(sigs) > 1:
+                    self.carriers.add(k)
+        self.flat_exprs: dict[int, str] = {}  # id(expr) -> verdict
+        self.verdicts: list[dict] = []
+
+    @staticmethod
+    def _sig(v: object) -> str:
+        if isinstance(v, Partial):
+            return f"partial({Flattening._sig(v.fn)}, {[Flattening._sig(a) for a in v.args]}, {sorted((k, Flattening._sig(x)) for k, x in v.kwargs.items())})"
+        if hasattr(v, "fi"):
+            env = getattr(v, "env", None)
+            extra = ""
+            if env is not None:
+                extra = repr(sorted((k, Flattening._sig(x)) for k, x in env.vars.items() if isinstance(x, (int, str, type(None)))))
+            return f"fn:{v.fi.fq}{extra}"
+        return repr(v)
+
+    # -- which expressions to look at -------------------------------------------------------------------
+    def mentions_limit(self, f: FuncInfo, e: ast.AST, flow: Flow | None) -> bool:
+        for n in ast.walk(e):
+            if isinstance(n, ast.Attribute) and n.attr in self.carriers:
+                return True
+            if isinstance(n, ast.Name) and flow is not None and flow.tags(n) and set(flow.tags(n)) <= {"LIMIT"}:
+                return True  # a value derived from the limit alone (names that passed a truncation carry the tag as well)
+            if isinstance(n, ast.Name) and f == self.cx.init and n.id == self.cx.limit_param:
+                return True
+        return False
+
+    def depends_on_limit(self, f: FuncInfo, e: ast.AST, flow: Flow | None) -> bool:
+        """May the value of `e` depend on the limit (syntactic over-approximation through the callees)?"""
+        if self.mentions_limit(f, e, flow):
+            return True
+        seen: set[str] = set()
+        work = list(self.targets(f, e))
+        while work:
+            t = work.pop()
+            if t.fq in seen or len(seen) > 60:
+                continue
+            seen.add(t.fq)
+            for n in own_nodes(t.node):
+                if isinstance(n, ast.Attribute) and n.attr in self.carriers:
+                    return True
+            work += callees_of(self.cx.repo, t, byname=False)
+        return False
+
+    def targets(self, f: FuncInfo, e: ast.AST) -> list[FuncInfo]:
+        """Repo functions (outside the construction code) that `e` calls or hands on as callables."""
+        out: list[FuncInfo] = []
+        T = self.cx.T
+        for n in ast.walk(e):
+            if isinstance(n, ast.Call):
+                try:
+                    cs, _ = T.callees(f, n, byname_fallback=False)
+                except Exception:  # noqa: BLE001
+                    cs = []
+                out += cs
+                for a in [*n.args, *[k.value for k in n.keywords]]:
+                    try:
+                        t = T.expr(f, a)
+                    except Exception:  # noqa: BLE001
+                        continue
+                    for m in members(t):
+                        if m[0] == "fn":
+                            out.append(m[1])
+                        elif m[0] == "partial":
+                            out += T._callable_targets(m)
+            elif isinstance(n, ast.Lambda) and getattr(n, "_func", None) is not None:
+                out.append(n._func)
+        res: list[FuncInfo] = []
+        for t in out:
+            if t not in res and t not in self.cons and not t.is_abstract:
+                res.append(t)
+        return res
+
+    def candidates(self, flow: Flow) -> list[tuple[FuncInfo, ast.expr]]:
+        out = []
+        for f in self.cons:
+            sinks = {id(n) for n, _, _ in self.cx.sink_events(f)}
+            for n in own_nodes(f.node):
+                if not isinstance(n, (ast.Call, ast.IfExp, ast.Compare)) or id(n) in sinks:
+                    continue
+                if isinstance(n, ast.Call):
+                    if isinstance(n.func, ast.Attribute) and self.cx.is_import_value(f, n.func.value):
+                        continue
+                    try:
+                        cs, _ = self.cx.T.callees(f, n, byname_fallback=False)
+                    except Exception:  # noqa: BLE001
+                        cs = []
+                    if any(c in self.cons for c in cs):
+                        continue
+                    parts = [*n.args, *[k.value for k in n.keywords]]
+                    if isinstance(n.func, ast.Attribute):
+                        parts.append(n.func.value)  # name.startswith(...)
+                elif isinstance(n, ast.Compare):
+                    if len(n.ops) == 1 and isinstance(n.ops[0], (ast.Is, ast.IsNot)):
+                        continue
+                    parts = [n.left, *n.comparators]
+                else:
+                    parts = [n.body, n.orelse]
+                if not any("RAW" in flow.tags(x) for p in parts for x in ast.walk(p)):
+                    continue
+                out.append((f, n))
+        return out
+
+    # -- tabulation ------------------------------------------------------------------------------------
+    @staticmethod
+    def _single_def(f: FuncInfo, name: str):
+        """The nested def, or the value of the only assignment, that binds a local name (None if it is bound in several places)."""
+        found: list = []
+        for n in own_nodes(f.node):
+            if isinstance(n, (ast.FunctionDef, ast.AsyncFunctionDef)) and n.name == name:
+                found.append(n)
+            elif isinstance(n, ast.Assign) and any(isinstance(x, ast.Name) and x.id == name for t in n.targets for x in ast.walk(t)):
+                found.append(n.value if len(n.targets) == 1 and isinstance(n.targets[0], ast.Name) else None)
+            elif isinstance(n, ast.AnnAssign) and isinstance(n.target, ast.Name) and n.target.id == name and n.value is not None:
+                found.append(n.value)
+            elif isinstance(n, (ast.AugAssign, ast.For, ast.AsyncFor, ast.NamedExpr, ast.With, ast.comprehension)) and any(isinstance(x, ast.Name) and x.id == name and isinstance(x.ctx, ast.Store) for x in ast.walk(n.target if hasattr(n, "target") else n)):
+                found.append(None)
+        return found[0] if len(found) == 1 else None
+
+    def _bind(self, f: FuncInfo, e: ast.expr, flow: Flow, lim: object, rnd: int) -> tuple[dict, list[str]]:
+        """Environment for tabulating `e` (an expression of construction function `f`) on a graph with limit `lim`: the receiver is the
+        graph object, raw names are test names, values derived from the limit only are the limit, local aliases / lambdas / nested
+        functions are what their only definition says; everything else is undetermined."""
+        from .c09_eval import Closure
+
+        env: dict[str, object] = {}
+        envobj = Env(env)
+        used: list[str] = []
+        local = set(f.param_names) | {n.id for n in own_nodes(f.node) if isinstance(n, ast.Name) and isinstance(n.ctx, ast.Store)}
+        local |= {n.name for n in own_nodes(f.node) if isinstance(n, (ast.FunctionDef, ast.AsyncFunctionDef))}
+        is_method = f.cls is not None and f.outer is None and not f.is_staticmethod and bool(f.param_names)
+        if is_method:
+            env[f.param_names[0]] = self.objs[lim]
+        i = 0
+        aliases: list[tuple[str, ast.expr]] = []
+        queue: list[ast.AST] = [e]
+        while queue:
+            x = queue.pop()
+            # comprehension / lambda variables of the expression itself are bound by the evaluation
+            inner = {y.id for n in ast.walk(x) if isinstance(n, ast.comprehension) for y in ast.walk(n.target) if isinstance(y, ast.Name)}
+            inner |= {a.arg for n in ast.walk(x) if isinstance(n, ast.Lambda) for a in [*n.args.posonlyargs, *n.args.args, *n.args.kwonlyargs]}
+            for n in ast.walk(x):
+                if not isinstance(n, ast.Name) or not isinstance(n.ctx, ast.Load) or n.id not in local or n.id in inner or n.id in env:
+                    continue
+                tags = flow.tags(n)
+                if self.cx.is_import_value(f, n):
+                    a, b = NAME_POOL[(i + rnd) % len(NAME_POOL)], NAME_POOL[(i + rnd + 1) % len(NAME_POOL)]
+                    i += 2
+                    env[n.id] = _model_import(a, b)
+                    used += [a, b, *_prefixes(a), *_prefixes(b)]
+                elif "RAW" in tags or "FLAT" in tags:
+                    name = NAME_POOL[(i + rnd) % len(NAME_POOL)]
+                    other = NAME_POOL[(i + rnd + 1) % len(NAME_POOL)]
+                    i += 1
+                    t = self.cx.T.expr(f, n)
+                    coll = any(m[0] == "b" and m[1] in ("list", "seq", "iter", "tuple", "set", "frozenset") for m in members(t))
+                    env[n.id] = [name, other] if coll else name
+                    used += [name, other] if coll else [name]
+                elif tags and set(tags) <= {"LIMIT"}:
+                    env[n.id] = lim
+                else:
+                    env[n.id] = POISON
+                    d = self._single_def(f, n.id)
+                    if isinstance(d, (ast.FunctionDef, ast.AsyncFunctionDef)) and getattr(d, "_func", None) is not None:
+                        env[n.id] = Closure(d, d._func, envobj)
+                        queue.append(d)
+                    elif isinstance(d, (ast.Lambda, ast.Attribute, ast.Call, ast.Name, ast.IfExp)) and len(aliases) < 8:
+                        aliases.append((n.id, d))
+                        queue.append(d)
+        for name, rhs in reversed(aliases):
+            try:
+                env[name] = self.ev.ev(rhs, Frame(f, f.module, envobj))
+            except (Unknown, Raised):
+                env[name] = POISON
+        return env, used
+
+    @staticmethod
+    def _leaves(v: object, depth: int = 0) -> list | None:
+        if isinstance(v, str):
+            return [v]
+        if depth > 3 or v is POISON or v is None or isinstance(v, (dict, int)):
+            return None
+        try:
+            items = list(v)  # type: ignore[call-overload]
+        except TypeError:
+            return None
+        out: list = []
+        for x in items:
+            sub = Flattening._leaves(x, depth + 1)
+            if sub is None:
+                return None
+            out += sub
+        return out
+
+    def classify(self, f: FuncInfo, e: ast.expr, flow: Flow) -> dict:
+        """verdict in {flatten, wrong-identity, wrong-cut, independent, unknown}."""
+        if self.build_error:
+            return {"verdict": "unknown", "why": self.build_error}
+        rows: dict[tuple[int, object], tuple] = {}
+        why = ""
+        for rnd in range(len(NAME_POOL)):
+            for lim in LIMITS:
+                env, used = self._bind(f, e, flow, lim, rnd)
+                fr = Frame(f, f.module, Env(env))
+                try:
+                    v = self.ev.ev(e, fr)
+                    if v is POISON:
+                        rows[(rnd, lim)] = ("unknown", "value cannot be determined", used)
+                        why = why or "; ".join(self.ev.notes[-2:]) or "undetermined value"
+                    else:
+                        lv = self._leaves(v)
+                        rows[(rnd, lim)] = ("names", lv, used, v) if lv is not None else ("other", repr(v)[:60], used, v)
+                except Raised as r:
+                    rows[(rnd, lim)] = ("raise", r.name, used)
+                except Unknown as u:
+                    rows[(rnd, lim)] = ("unknown", str(u), used)
+                    why = why or str(u)
+        kinds = {r[0] for r in rows.values()}
+        if "unknown" in kinds:
+            return {"verdict": "unknown", "why": why}
+        dependent = any(rows[(rnd, lim)][:2] != rows[(rnd, None)][:2] for rnd in range(len(NAME_POOL)) for lim in LIMITS)
+        if not dependent:
+            return {"verdict": "independent"}
+        if all(r[0] == "other" and isinstance(r[3], bool) for r in rows.values()):
+            return self._classify_predicate(rows)
+        cut_only = all(rows[(rnd, None)][0] == "raise" for rnd in range(len(NAME_POOL)))
+        if cut_only and self.unreachable_without_limit(f, e):
+            # the expression is only evaluated when a limit is set; what happens without one is decided by the code around it
+            pass
+        else:
+            cut_only = False
+            for rnd in range(len(NAME_POOL)):
+                base = rows[(rnd, None)]
+                if base[0] != "names" or any(x not in base[2] for x in base[1]):
+                    return {"verdict": "wrong-identity", "example": f"without a limit {self._show(base)} is produced from {base[2]}"}
+        for rnd in range(len(NAME_POOL)):
+            base = rows[(rnd, None)]
+            names = list(base[2]) if cut_only else base[1]
+            for lim in LIMITS[1:]:
+                got = rows[(rnd, lim)]
+                want = [trunc(x, lim) for x in names]
+                if got[0] != "names" or got[1] != want:
+                    return {"verdict": "wrong-cut", "example": f"with limit {lim}, {names} becomes {self._show(got)} instead of {want}"}
+        return {"verdict": "cut-only" if cut_only else "flatten"}
+
+    @staticmethod
+    def _classify_predicate(rows: dict) -> dict:
+        """A limit-dependent test on names in the construction code: the only such test the quotient law allows is whether two
+        names flatten to the same node (in either polarity)."""
+        agree = disagree = 0
+        first_bad: dict[bool, str] = {}
+        for (rnd, lim), r in rows.items():
+            used = r[2]
+            if len(used) < 2 or used[0] == used[1]:
+                return {"verdict": "predicate-unary"}
+            a, b = used[0], used[1]
+            same = trunc(a, lim) == trunc(b, lim)
+            if r[3] == same:
+                agree += 1
+                first_bad.setdefault(False, f"with limit {lim} it is {r[3]} for {a} / {b}, which flatten to {trunc(a, lim)} / {trunc(b, lim)}")
+            else:
+                disagree += 1
+                first_bad.setdefault(True, f"with limit {lim} it is {r[3]} for {a} / {b}, which flatten to {trunc(a, lim)} / {trunc(b, lim)}")
+        if not disagree or not agree:
+            return {"verdict": "predicate-same-node"}
+        positive = agree >= disagree
+        return {"verdict": "predicate-wrong", "example": first_bad[positive], "means": "the two names flatten to the same node" if positive else "the two names flatten to different nodes"}
+
+    def cond_without_limit(self, f: FuncInfo, c: ast.expr):
+        return self.cond_value(f, c, None)
+
+    def always_reached_with_limit(self, f: FuncInfo, node: ast.AST) -> bool:
+        """Every condition on the way to `node` holds whenever a limit is set (tabulated on the graph objects)."""
+        if self.build_error:
+            return False
+        return all(self.cond_value(f, c, lim) == pol for c, pol in conds(f, node) for lim in LIMITS[1:])
+
+    def cond_value(self, f: FuncInfo, c: ast.expr, lim: object):
+        """Truth value of a condition of the construction code on a graph with this limit (None if it cannot be determined)."""
+        env: dict[str, object] = {}
+        for n in ast.walk(c):
+            if isinstance(n, ast.Name) and isinstance(n.ctx, ast.Load):
+                if f.cls is not None and f.outer is None and not f.is_staticmethod and f.param_names and n.id == f.param_names[0]:
+                    env[n.id] = self.objs[lim]
+                elif n.id in f.param_names or any(isinstance(x, ast.Name) and x.id == n.id and isinstance(x.ctx, ast.Store) for x in own_nodes(f.node)):
+                    env.setdefault(n.id, POISON)
+        try:
+            t = self.ev._truth(self.ev.ev(c, Frame(f, f.module, Env(env))))
+        except (Unknown, Raised):
+            return None
+        return None if t is POISON else bool(t)
+
+    def unreachable_without_limit(self, f: FuncInfo, e: ast.AST) -> bool:
+        if self.build_error:
+            return False
+        for c, pol in conds(f, e):
+            t = self.cond_without_limit(f, c)
+            if t is not None and t != pol:
+                return True
+        return False
+
+    @staticmethod
+    def _show(row: tuple) -> str:
+        return f"{row[1]}" if row[0] in ("names", "other") else f"<{row[0]}: {row[1]}>"
+
+
+def run_flow(cx: Ctx, cons: list[FuncInfo], flat: dict[int, str]) -> Flow:
+    T = cx.T
+    consset = set(cons)
+
+    def sources(f: FuncInfo, e: ast.expr):
+        if isinstance(e, ast.Call) and isinstance(e.func, ast.Attribute) and cx.is_import_value(f, e.func.value):
+            return {"RAW"}
+        if isinstance(e, ast.Attribute) and isinstance(e.ctx, ast.Load) and cx.is_import_value(f, e.value) and not isinstance(parent(e), ast.Call):
+            return {"RAW"}
+        return None
+
+    def post(f: FuncInfo, e: ast.expr, tags):
+        if id(e) in flat:
+            return frozenset({"FLAT"})
+        return tags
+
+    seeds = {(cx.init.fq, cx.modules_param): {"RAW"}, (cx.init.fq, cx.limit_param): {"LIMIT"}}
+    return Flow(cx.repo, T, Spec(sources=sources, post=post, param_seeds=seeds, objects_carry=False, scope=lambda f: f in consset))
+
+
+def rule_r1_r3(cx: Ctx, cons: list[FuncInfo]) -> Flow:
+    res, repo = cx.res, cx.repo
+    fl = Flattening(cx, cons)
+    flow1 = run_flow(cx, cons, {})
+    cands = fl.candidates(flow1)
+    E = Effects(repo, cx.T)
+    seen_keys: set[tuple[str, str]] = set()
+    n_flat = 0
+    cands.sort(key=lambda fe: (fe[0].fq, getattr(fe[1], "lineno", 0), getattr(fe[1], "col_offset", 0), -(getattr(fe[1], "end_lineno", 0) * 10000 + getattr(fe[1], "end_col_offset", 0))))
+    covered: set[int] = set()
+    guarded_updates: list[tuple[FuncInfo, ast.expr]] = []
+    for f, e in cands:
+        if id(e) in covered:
+            continue
+        v = fl.classify(f, e, flow1)
+        verdict = v["verdict"]
+        if verdict not in ("independent",) and not (verdict == "unknown" and not fl.depends_on_limit(f, e, flow1)):
+            covered |= {id(x) for x in ast.walk(e)}
+        if verdict == "cut-only":
+            guarded_updates.append((f, e))
+            verdict = "flatten"
+        if verdict.startswith("predicate"):
+            pkey = repo.key(f, stmt_of(e)) + f" [{norm(e, 60)}]"
+            if verdict == "predicate-same-node":
+                res.add("C09.R2", pkey, True, "a test whether two names flatten to the same node (tabulated)", where(f, e), kind="decision-table")
+            elif verdict == "predicate-wrong":
+                res.add(
+                    "C09.R2", pkey, False,
+                    f"`{norm(e, 70)}` depends on the level limit and decides about a pair of names, but it is not the test whether {v['means']}: {v['example']}; "
+                    "what the graph keeps or drops then differs from the quotient of the full graph (an import between textual-prefix siblings is lost or a self-edge is kept)",
+                    where(f, e), kind="decision-table",
+                )
+            else:
+                res.undecide("C09.R2", pkey, f"`{norm(e, 70)}` is a test on a name that depends on the level limit; its role in the construction is not understood", where(f, e))
+            continue
+        tg = fl.targets(f, e)
+        owner = tg[0] if len(tg) == 1 else f
+        key = f"{owner.relpath}::{owner.qualname}" if len(tg) == 1 else repo.key(f, stmt_of(e)) + f" [{norm(e, 50)}]"
+        if verdict == "independent":
+            continue
+        if verdict == "unknown":
+            if fl.depends_on_limit(f, e, flow1):
+                fl.flat_exprs[id(e)] = verdict
+                if (key, verdict) not in seen_keys:
+                    seen_keys.add((key, verdict))
+                    res.undecide("C09.R3", key, f"`{norm(e, 70)}` depends on the level limit but its value cannot be tabulated ({v.get('why', '')})", where(f, e))
+            continue
+        fl.flat_exprs[id(e)] = verdict
+        n_flat += 1
+        if verdict != "flatten":
+            key = repo.key(f, stmt_of(e)) + f" [{norm(e, 50)}]"  # a wrong truncation is reported per site
+        if (key, verdict) in seen_keys:
+            continue
+        seen_keys.add((key, verdict))
+        ok_id = verdict != "wrong-identity"
+        ok_cut = verdict == "flatten"
+        res.add("C09.R3", f"{key}::identity without limit", ok_id, "without a limit names are unchanged" if ok_id else f"names are not returned unchanged when no limit is set: {v['example']}", where(f, e), kind="decision-table")
+        if ok_id:
+            res.add(
+                "C09.R3", f"{key}::first limit+1 components", ok_cut,
+                f"tabulated over {len(NAME_POOL)} names x {len(LIMITS) - 1} limits: the name is cut to its first limit+1 dotted components" if ok_cut else f"the truncation is not 'the first limit+1 dotted components': {v['example']} (the graph is not the quotient of the full graph at that level)",
+                where(f, e), kind="decision-table",
+            )
+        # no state shared between graphs
+        closure: list[FuncInfo] = []
+        work = list(tg)
+        while work and len(closure) < 30:
+            t = work.pop()
+            if t in closure or t in cons:
+                continue
+            closure.append(t)
+            work += [c for c in callees_of(repo, t, byname=False) if c.module.name.startswith("pytestarch")]
+        shared = [w for t in closure for w in E.writes(t) if w.root_kind in ("classvar", "global")]
+        inst = [w for t in closure for w in E.writes(t) if w.root_kind == "self"]
+        okp = not shared
+        res.add(
+            "C09.R3", f"{key}::no state shared between graphs", okp,
+            "the truncation writes nothing that outlives the graph it belongs to" if okp else f"`{header(stmt_of(shared[0].node))}` in {shared[0].fi.qualname} keeps flattened names in state shared by all graphs ({shared[0].root_kind} {shared[0].root}.{shared[0].field}): names flattened for one limit are served to an architecture with another limit",
+            where(shared[0].fi, shared[0].node) if shared else where(f, e), kind="effect",
+        )
+        for w in inst[:2]:
+            res.observe(f"C09.R3: `{header(stmt_of(w.node))}` in {w.fi.qualname} keeps per-graph state while flattening (the limit is fixed per graph; judged by the tabulation)")
+    # `if <limit is set>: v = <truncation of v>`: on the path around the statement there is no limit, so v is what the graph expects
+    idiom_nodes: set[int] = set()
+    for f, e in guarded_updates:
+        st = stmt_of(e)
+        tgt = st.targets[0] if isinstance(st, ast.Assign) and len(st.targets) == 1 else (st.target if isinstance(st, ast.AnnAssign) else None)
+        raw_loads = {x.id for x in ast.walk(e) if isinstance(x, ast.Name) and "RAW" in flow1.tags(x)}
+        if not (isinstance(tgt, ast.Name) and getattr(st, "value", None) is e and raw_loads == {tgt.id}):
+            continue
+        outer = st
+        while isinstance(parent(outer), ast.If):
+            outer = parent(outer)
+        if outer is st or parent(outer) is not f.node or not fl.always_reached_with_limit(f, st):
+            continue
+        stores = [x for x in own_nodes(f.node) if isinstance(x, ast.Name) and x.id == tgt.id and isinstance(x.ctx, ast.Store)]
+        inside = [x for x in stores if any(a is outer for a in ancestors(x))]
+        before = [x for x in stores if x not in inside and x.lineno < outer.lineno]
+        if len(inside) != 1 or len(before) + len(inside) != len(stores):
+            continue
+        idiom_nodes |= {id(x) for x in ast.walk(outer)}
+        for x in own_nodes(f.node):
+            if isinstance(x, ast.Name) and x.id == tgt.id and isinstance(x.ctx, ast.Load) and x.lineno > getattr(outer, "end_lineno", outer.lineno):
+                fl.flat_exprs[id(x)] = "flatten"
+    # ---- R1 on the second pass
+    flow = run_flow(cx, cons, fl.flat_exprs)
+    # limit used in the construction code outside anything that was classified
+    classified_nodes: set[int] = set()
+    for f, e in cands:
+        if id(e) in fl.flat_exprs:
+            classified_nodes |= {id(x) for x in ast.walk(e)}
+    stray: list[tuple[FuncInfo, ast.AST]] = []
+    for f in cons:
+        for n in own_nodes(f.node):
+            if id(n) in classified_nodes or id(n) in idiom_nodes:
+                continue
+            is_carrier = isinstance(n, ast.Attribute) and n.attr in fl.carriers and isinstance(n.ctx, ast.Load)
+            is_limit = isinstance(n, ast.Name) and isinstance(n.ctx, ast.Load) and bool(flow.tags(n)) and set(flow.tags(n)) <= {"LIMIT"}
+            if not (is_carrier or is_limit):
+                continue
+            st = stmt_of(n)
+            # storing the limit on the object / handing it on to other construction code is not a use
+            if isinstance(st, (ast.Assign, ast.AnnAssign)):
+                tgts = st.targets if isinstance(st, ast.Assign) else [st.target]
+                if all(isinstance(t, ast.Attribute) for t in tgts):
+                    continue  # something derived from the limit is stored on the object: it is a carrier, its uses are looked at
+                if all(isinstance(t, (ast.Attribute, ast.Name)) for t in tgts) and not any(isinstance(x, (ast.Compare, ast.IfExp, ast.Subscript)) for x in ast.walk(st.value or ast.Constant(0))):
+                    continue
+            p = parent(n)
+            if isinstance(p, ast.Call) and n in p.args or isinstance(p, ast.keyword):
+                call = p if isinstance(p, ast.Call) else parent(p)
+                try:
+                    cs, _ = cx.T.callees(f, call, byname_fallback=False)
+                except Exception:  # noqa: BLE001
+                    cs = []
+                if cs and all(c in cons for c in cs):
+                    continue
+            stray.append((f, n))
+    stray_limit = bool(stray)
+    n = 0
+    for f in cons:
+        for node, what, args in cx.sink_events(f):
+            for a in args:
+                tags = set(flow.tags(a)) - {"LIMIT"}
+                if not tags:
+                    continue
+                n += 1
+                ok = tags == {"FLAT"}
+                key = repo.key(f, stmt_of(node)) + f" [{what}({norm(a, 30)})]"
+                if not ok and stray_limit:
+                    sf, sn = stray[0]
+                    res.undecide("C09.R1", key, f"`{norm(a, 40)}` reaches {what} without a recognised truncation, but {sf.qualname} uses the limit in `{header(stmt_of(sn))}` in a way that is not understood", where(f, node))
+                    continue
+                res.add(
+                    "C09.R1", key, ok,
+                    "flattened name" if ok else f"`{norm(a, 40)}` reaches {what} without having passed the level-limit truncation: with a level limit, nodes/edges below the limit enter the graph (or are looked up) un-truncated",
+                    where(f, node), kind="flow",
+                )
+    for f in cons:
+        for w in E.writes(f):
+            if w.root_kind not in ("classvar", "global"):
+                continue
+            st = stmt_of(w.node)
+            names_kept = any(set(flow.tags(x)) & {"RAW", "FLAT"} for x in ast.walk(st) if isinstance(x, ast.expr))
+            if names_kept:
+                res.add(
+                    "C09.R3", repo.key(f, st) + " [state shared between graphs]", False,
+                    f"`{header(st)}` keeps node names in state shared by all graphs ({w.root_kind} {w.root}.{w.field}): what was recorded while building one (limited) graph decides what another graph gets",
+                    where(f, w.node), kind="effect",
+                )
+            else:
+                res.observe(f"C09.R3: `{header(st)}` in {f.qualname} writes {w.root_kind} state during graph construction (no node name involved)")
+    res.floor("C09.R1", 3, n)
+    res.extra["c09_flatten_sites"] = n_flat
+    res.extra["c09_limit_carriers"] = sorted(fl.carriers)
+    if not n_flat and not res.undecided:
+        # nothing in the construction code depends on the limit at all: the limit is ignored
+        lim_used = bool(fl.carriers) or stray_limit
+        res.add("C09.R3", f"{cx.g.module.relpath}::{cx.g.name}::the limit reaches a truncation", False, "the level limit " + ("is stored but never applied to a node name" if lim_used else "is ignored by the graph") + ": the graph is not flattened", where(cx.init, cx.init.node), kind="flow")
+    return flow
+
+
+# --------------------------------------------------------------------------- R2
+
+
+def _eq_atom(a: ast.expr, b: ast.expr):
+    x, y = sorted([norm(a), norm(b)])
+    return atom(f"{x} == {y}")
+
+
+def _alias_source(f: FuncInfo, e: ast.expr, depth: int = 0) -> ast.expr:
+    """`v` -> `w` when `v` is bound exactly once in `f`, by `v = w` (or pairwise `v, x = w, y`) and `w` is a plain name."""
+    if not isinstance(e, ast.Name) or depth > 3 or e.id in f.param_names:
+        return e
+    src: list[ast.expr | None] = []
+    for n in own_nodes(f.node):
+        if isinstance(n, ast.Assign):
+            for t in n.targets:
+                if isinstance(t, ast.Name) and t.id == e.id:
+                    src.append(n.value)
+                elif isinstance(t, (ast.Tuple, ast.List)) and any(isinstance(x, ast.Name) and x.id == e.id for x in t.elts):
+                    if isinstance(n.value, (ast.Tuple, ast.List)) and len(n.value.elts) == len(t.elts):
+                        src.append(n.value.elts[[isinstance(x, ast.Name) and x.id == e.id for x in t.elts].index(True)])
+                    else:
+                        src.append(None)
+        elif isinstance(n, (ast.AnnAssign, ast.AugAssign, ast.For, ast.AsyncFor, ast.NamedExpr)) and any(isinstance(x, ast.Name) and x.id == e.id and isinstance(x.ctx, ast.Store) for x in ast.walk(n.target)):
+            src.append(n.value if isinstance(n, ast.AnnAssign) else None)
+    if len(src) == 1 and isinstance(src[0], ast.Name):
+        w = src[0]
+        # the source must not be re-bound after the alias was taken, and the alias must not sit in a loop that re-binds the source
+        stores = [x for x in own_nodes(f.node) if isinstance(x, ast.Name) and x.id == w.id and isinstance(x.ctx, (ast.Store, ast.Del))]
+        in_loop = any(isinstance(a, (ast.For, ast.AsyncFor, ast.While)) for a in ancestors(w) if a is not f.node)
+        if all(x.lineno < w.lineno for x in stores) and not (in_loop and stores):
+            return w
+    return e
+
+
+def _unmodified_param(f: FuncInfo, e: ast.expr) -> str | None:
+    if not isinstance(e, ast.Name) or e.id not in f.param_names:
+        return None
+    for n in own_nodes(f.node):
+        if isinstance(n, ast.Name) and n.id == e.id and isinstance(n.ctx, (ast.Store, ast.Del)):
+            return None
+    return e.id
+
+
+def _arg_for(callee: FuncInfo, call: ast.Call, pname: str) -> ast.expr | None:
+    a = callee.node.args
+    pos = [p.arg for p in [*a.posonlyargs, *a.args]]
+    if callee.cls is not None and callee.outer is None and not callee.is_staticmethod and isinstance(call.func, ast.Attribute):
+        pos = pos[1:]
+    if any(isinstance(x, ast.Starred) for x in call.args) or any(k.arg is None for k in call.keywords):
+        return None
+    for k in call.keywords:
+        if k.arg == pname:
+            return k.value
+    if pname in pos and pos.index(pname) < len(call.args):
+        return call.args[pos.index(pname)]
+    return None
+
+
+def guarded_distinct(cx: Ctx, cons: list[FuncInfo], f: FuncInfo, node: ast.AST, u: ast.expr, v: ast.expr, depth: int = 0) -> tuple[bool | None, str]:
+    """Is `node` only evaluated when u != v?  (True / False / None = cannot tell)"""
+    try:
+        gf = guard_formula(f, node)
+        for x, y in ((u, v), (_alias_source(f, u), _alias_source(f, v))):
+            if implies(gf, f_not(_eq_atom(x, y))):
+                return True, f"guarded in {f.qualname}"
+    except AnalysisError as e:
+        return None, str(e)
+    pu, pv = _unmodified_param(f, u), _unmodified_param(f, v)
+    if depth < 3 and pu and pv:
+        sites = []
+        for h in cons:
+            for c in own_nodes(h.node):
+                if isinstance(c, ast.Call):
+                    try:
+                        cs, _ = cx.T.callees(h, c, byname_fallback=False)
+                    except Exception:  # noqa: BLE001
+                        cs = []
+                    if f in cs:
+                        sites.append((h, c))
+        if sites:
+            for h, c in sites:
+                x, y = _arg_for(f, c, pu), _arg_for(f, c, pv)
+                if x is None or y is None:
+                    return None, f"call `{norm(c, 60)}` of {f.qualname} binds its arguments in a way that is not understood"
+                ok, why = guarded_distinct(cx, cons, h, c, x, y, depth + 1)
+                if not ok:
+                    return ok, why
+            return True, f"guarded at every call of {f.qualname}"
+    return False, "not guarded"
+
+
+def _asks_reachability(cx: Ctx, f: FuncInfo, e: ast.AST, depth: int = 0, seen: set | None = None) -> str | None:
+    """Does evaluating `e` ask networkx whether one node can be *reached* from another (has_path, descendants, ...)?"""
+    seen = seen if seen is not None else set()
+    for n in ast.walk(e):
+        targets: list[FuncInfo] = []
+        if isinstance(n, ast.Call):
+            fq = cx.repo.resolve_name(f.module, n.func) if isinstance(n.func, (ast.Name, ast.Attribute)) else None
+            last = (fq or "").rsplit(".", 1)[-1]
+            if fq and fq.startswith("networkx.") and ("path" in last or last in ("descendants", "ancestors") or last.startswith(("dfs_", "bfs_"))):
+                return fq
+            if isinstance(n.func, ast.Attribute) and cx.is_graph(f, n.func.value) and ("path" in n.func.attr or n.func.attr in ("descendants", "ancestors")):
+                return n.func.attr
+            try:
+                targets, _ = cx.T.callees(f, n, byname_fallback=False)
+            except Exception:  # noqa: BLE001
+                targets = []
+        elif isinstance(n, ast.Compare) and len(n.ops) == 1 and isinstance(n.ops[0], (ast.In, ast.NotIn)):
+            try:
+                t = cx.T.expr(f, n.comparators[0])
+            except Exception:  # noqa: BLE001
+                continue
+            for m in members(t):
+                if m[0] == "cls" and m[1] in cx.repo.classes:
+                    c = cx.repo.lookup_method(cx.repo.classes[m[1]], "__contains__")
+                    if c is not None:
+                        targets.append(c)
+        for t_ in targets:
+            if t_.fq in seen or depth > 3 or isinstance(t_.node, ast.Lambda):
+                continue
+            seen.add(t_.fq)
+            for st in t_.node.body:
+                got = _asks_reachability(cx, t_, st, depth + 1, seen)
+                if got:
+                    return f"{got} (through {t_.qualname})"
+    return None
+
+
+def _flat_comparisons(cons: list[FuncInfo], flow: Flow) -> list[tuple[FuncInfo, ast.Compare]]:
+    """Equality tests between two flattened names anywhere in the construction code."""
+    out = []
+    for f in cons:
+        for n in own_nodes(f.node):
+            if isinstance(n, ast.Compare) and len(n.ops) == 1 and isinstance(n.ops[0], (ast.Eq, ast.NotEq)):
+                a, b = set(flow.tags(n.left)) - {"LIMIT"}, set(flow.tags(n.comparators[0])) - {"LIMIT"}
+                if a == {"FLAT"} and b == {"FLAT"}:
+                    out.append((f, n))
+    return out
+
+
+def rule_r2(cx: Ctx, cons: list[FuncInfo], flow: Flow) -> None:
+    res, repo = cx.res, cx.repo
+    n = 0
+    flat_cmp = _flat_comparisons(cons, flow)
+    for f in cons:
+        for node, what, args in cx.sink_events(f):
+            if not isinstance(node, ast.Call):
+                continue
+            short = what.rsplit(".", 1)[-1]
+            key = repo.key(f, stmt_of(node)) + " [no self-edge]"
+            if short in EDGE_ADDERS:
+                n += 1
+                pos = list(node.args[1:] if not isinstance(node.func, ast.Attribute) else node.args)
+                kw = {k.arg: k.value for k in node.keywords}
+                u = pos[0] if len(pos) > 0 else kw.get("u_of_edge", kw.get("u"))
+                v = pos[1] if len(pos) > 1 else kw.get("v_of_edge", kw.get("v"))
+                if u is None or v is None or isinstance(u, ast.Starred) or isinstance(v, ast.Starred):
+                    res.undecide("C09.R2", key, "the two ends of the inserted edge cannot be identified", where(f, node))
+                    continue
+                for c_, _pol in conds(f, node):
+                    asks = _asks_reachability(cx, f, c_)
+                    if asks:
+                        res.add(
+                            "C09.R2", repo.key(f, stmt_of(node)) + " [insertion independent of reachability]", False,
+                            f"whether `{norm(node, 60)}` happens depends on `{norm(c_, 60)}`, which asks {asks}: an import edge between two (flattened) nodes is dropped when the target is already reachable some other way - "
+                            "'a imports b' is then false in the limited graph although a module flattening to a imports one flattening to b",
+                            where(f, node), kind="dominance",
+                        )
+                        break
+                ok, why = guarded_distinct(cx, cons, f, node, u, v)
+                if ok is None:
+                    res.undecide("C09.R2", key, why, where(f, node))
+                    continue
+                try:
+                    in_guard = atoms_of(guard_formula(f, node))
+                except AnalysisError:
+                    in_guard = set()
+                elsewhere = [(cf, cn) for cf, cn in flat_cmp if _eq_atom(cn.left, cn.comparators[0])[1] not in in_guard]
+                if not ok and elsewhere and len(elsewhere) == len(flat_cmp):
+                    cf, cn = elsewhere[0]
+                    res.undecide("C09.R2", key, f"`{norm(node, 60)}` is not provably guarded by a test that its two ends differ, but {cf.qualname} compares two flattened names in `{norm(cn, 50)}`: the connection between that test and this insertion is not understood", where(f, node))
+                    continue
+                res.add("C09.R2", key, ok, f"an edge is only added between two different (flattened) nodes ({why})" if ok else f"`{norm(node, 70)}` is not guarded by a test that `{norm(u, 30)}` and `{norm(v, 30)}` differ: sub modules collapsed into one node import 'themselves'", where(f, node), kind="dominance")
+            elif short in BULK_EDGE_ADDERS:
+                n += 1
+                src = args[0] if args else None
+                elt = None
+                if isinstance(src, (ast.ListComp, ast.GeneratorExp, ast.SetComp)) and isinstance(src.elt, ast.Tuple) and len(src.elt.elts) >= 2:
+                    elt = src.elt
+                elif isinstance(src, (ast.List, ast.Tuple)) and len(src.elts) == 1 and isinstance(src.elts[0], ast.Tuple) and len(src.elts[0].elts) >= 2 and short != "add_path":
+                    elt = src.elts[0]
+                if elt is None or short not in ("add_edges_from", "add_weighted_edges_from"):
+                    res.undecide("C09.R2", key, f"edges inserted in bulk through {short}: the pairs cannot be identified", where(f, node))
+                    continue
+                ok, why = guarded_distinct(cx, cons, f, elt, elt.elts[0], elt.elts[1])
+                if ok is None:
+                    res.undecide("C09.R2", key, why, where(f, node))
+                    continue
+                res.add("C09.R2", key, bool(ok), "only pairs of different (flattened) nodes are inserted" if ok else f"`{norm(node, 70)}` inserts pairs without testing that the two ends differ: collapsed sub modules import 'themselves'", where(f, node), kind="dominance")
+    res.floor("C09.R2", 1, n)
+
+
+# --------------------------------------------------------------------------- R4: the limit handed to the graph
+
+
+class Capture:
+    def __init__(self, cx: Ctx) -> None:
+        self.cx = cx
+        self.calls: list[tuple[list, dict, bool]] = []
+
+    def __call__(self, args: list, kwargs: dict, uncertain: bool):
+        self.calls.append((args, kwargs, uncertain))
+        return POISON
+
+    def limit(self) -> tuple[str, object]:
+        """("ok", value) | ("none", reason)"""
+        if len(self.calls) != 1:
+            return "none", f"{len(self.calls)} constructions of {GRAPH_CLASS} on this path"
+        args, kwargs, unc = self.calls[0]
+        if unc:
+            return "none", "the construction is reached on a path whose conditions cannot be evaluated"
+        if self.cx.limit_param in kwargs:
+            v = kwargs[self.cx.limit_param]
+        elif len(args) > self.cx.limit_index:
+            v = args[self.cx.limit_index]
+        else:
+            v = None  # the constructor's default: no limit
+        if v is POISON:
+            return "undetermined", "the limit handed to the graph depends on something that cannot be evaluated"
+        return "ok", v
+
+
+def _module_object(path: str):
+    return NativeObj(f"<module {path}>", {}, {"__file__": path + "/__init__.py", "__name__": path.rsplit("/", 1)[-1]})
+
+
+def tabulate_limit(cx: Ctx, entry: FuncInfo, style: str) -> tuple[list[tuple], str | None]:
+    """Rows (user limit, depth, outcome) of the limit received by the graph; or the reason why it cannot be tabulated."""
+    rows: list[tuple] = []
+    root = "/srv/work/proj"
+    subs = ["", "/core", "/core/domain", "/core/domain/model", "/proj", "/libs/proj/core"]  # the last two repeat the root's own name
+    for lim in (None, 1, 2, 5):
+        for sub in subs:
+            depth = sub.count("/")
+            cap = Capture(cx)
+            ev = Evaluator(cx.repo, tolerant=True, intercept={cx.g.fq: cap})
+            mp = root + sub
+            try:
+                if style == "paths":
+                    args, kwargs = [root, mp], {}
+                elif style == "modules":
+                    args, kwargs = [_module_object(root), _module_object(mp)], {}
+                else:  # generate_graph(root_path, module_path, diff, exclusions, exclude_external, limit, external_exclusions)
+                    diff = sub.strip("/").replace("/", ".") or "."
+                    args, kwargs = [], {}
+                    for p in entry.param_names:
+                        t = cx.T.param_type(entry, p)
+                        ks = {m[1] if m[0] == "b" else (m[1] if m[0] == "lib" else m[0]) for m in members(t)}
+                        if "level_limit" in p:
+                            continue
+                        if "pathlib.Path" in ks:
+                            kwargs[p] = PurePosixPath(mp if "module" in p else root)
+                        elif "str" in ks and "tuple" not in ks:
+                            kwargs[p] = diff
+                        elif "bool" in ks:
+                            kwargs[p] = True
+                        elif "tuple" in ks:
+                            kwargs[p] = None if "none" in ks else ()
+                        else:
+                            kwargs[p] = POISON
+                lp = next((p for p in entry.param_names if p == "level_limit"), None) or next((p for p in entry.param_names if "limit" in p), None)
+                if lp is None:
+                    return rows, f"{entry.qualname} has no level_limit parameter"
+                kwargs[lp] = lim
+                ev.call_function(entry, args, kwargs)
+            except Raised as r:
+                if not cap.calls:
+                    if lim is None and r.name == "TypeError":
+                        rows.append((lim, depth, ("raise", r.name), mp))  # arithmetic on a missing limit
+                        continue
+                    return rows, f"{entry.qualname} raises {r.name} for level_limit={lim}, module_path {depth} level(s) below root_path"
+            except Unknown as u:
+                if not cap.calls:
+                    return rows, f"{entry.qualname} cannot be evaluated: {u}"
+            st, v = cap.limit()
+            if st != "ok":
+                return rows, ("!" if st == "undetermined" else "") + f"{entry.qualname}: {v}" + (f" ({'; '.join(ev.notes[-2:])})" if ev.notes else "")
+            rows.append((lim, depth, ("value", v), mp))
+    return rows, None
+
+
+def rule_r4(cx: Ctx, scan_depends_on_limit: bool = False) -> None:
+    res, repo = cx.res, cx.repo
+    cx.scan_depends_on_limit = scan_depends_on_limit
+    m = repo.modules.get(ENTRY_MODULE)
+    entries: list[tuple[FuncInfo, str]] = []
+    if m is not None:
+        if ENTRIES[0] in m.functions:
+            entries.append((m.functions[ENTRIES[0]], "paths"))
+        if ENTRIES[1] in m.functions:
+            entries.append((m.functions[ENTRIES[1]], "modules"))
+    decided = 0
+    problems: list[str] = []
+    for entry, style in entries:
+        rows, why = tabulate_limit(cx, entry, style)
+        if why is not None:
+            if why.startswith("!"):
+                # the value itself is out of reach (not only the way to it): tabulating a later function would hide that
+                res.undecide("C09.R4", f"{entry.relpath}::{entry.qualname}::limit handed to the graph", why[1:], where(entry, entry.node))
+                decided += 1
+                continue
+            problems.append(why)
+            continue
+        decided += 1
+        _judge_limit_rows(cx, entry, rows)
+    if not decided:
+        # the public entry points cannot be evaluated: tabulate the function that constructs the graph
+        builders = [f for f, _c in cx.ctor_sites() if f.outer is None and f.cls is None]
+        gg = repo.find_func(GG, "generate_graph")
+        for b in ([gg] if gg is not None and (gg in builders or not builders) else builders[:2]):
+            rows, why = tabulate_limit(cx, b, "generate")
+            if why is None:
+                decided += 1
+                _judge_limit_rows(cx, b, rows)
+            else:
+                problems.append(why)
+    if not decided:
+        res.undecide("C09.R4", f"{ENTRY_MODULE}::{ENTRIES[0]}", "the limit handed to the graph cannot be tabulated: " + " | ".join(problems[:3]))
+    else:
+        for p in problems:
+            res.observe(f"C09.R4: {p}")
+
+
+def _judge_limit_rows(cx: Ctx, entry: FuncInfo, rows: list[tuple]) -> None:
+    res = cx.res
+    base = f"{entry.relpath}::{entry.qualname}"
+
+    def show(lim, depth, out, mp=""):
+        got = out[1] if out[0] == "value" else f"raises {out[1]}"
+        return f"level_limit={lim}, module_path {depth} level(s) below root_path (root /srv/work/proj, module {mp}): the graph receives limit {got!r}"
+
+    limited = [r[2] for r in rows if r[0] is not None]
+    if limited and all(o == ("value", None) for o in limited) and getattr(cx, "scan_depends_on_limit", False):
+        # the graph never sees the limit, but the module / import list handed to it is computed from the limit: the truncation may have
+        # moved in front of the graph - a design these rules do not follow
+        res.undecide("C09.R4", f"{base}::limit handed to the graph", "the graph is built without a limit while the scanned modules / imports depend on the limit: flattening seems to happen before the graph is built, which these rules cannot follow", where(entry, entry.node))
+        return
+    none_rows = [r for r in rows if r[0] is None]
+    bad = [r for r in none_rows if r[2] != ("value", None)]
+    res.add("C09.R4", f"{base}::None stays None", not bad, "no limit stays no limit for every root/module path difference" if not bad else f"a missing limit is not passed through as None: {show(*bad[0])}", where(entry, entry.node), kind="decision-table")
+    same = [r for r in rows if r[0] is not None and r[1] == 0]
+    bad = [r for r in same if r[2] != ("value", r[0])]
+    res.add("C09.R4", f"{base}::limit reaches the graph unchanged when the paths coincide", not bad, "root_path == module_path: the graph receives the user's limit" if not bad else f"{show(*bad[0])}, expected {bad[0][0]}", where(entry, entry.node), kind="decision-table")
+    deep = [r for r in rows if r[0] is not None and r[1] > 0]
+    bad = [r for r in deep if r[2] != ("value", r[0] + r[1])]
+    res.add(
+        "C09.R4", f"{base}::offset counts the levels between root_path and module_path", not bad,
+        f"tabulated over {len(deep)} (limit, path difference) pairs: graph limit = user limit + number of levels between the paths" if not bad else f"{show(*bad[0])}, expected {bad[0][0] + bad[0][1]} (a difference of n levels must add n, otherwise modules k levels below module_path are cut away or kept)",
+        where(entry, entry.node), kind="decision-table",
+    )
+
+
+# --------------------------------------------------------------------------- driver
 
 
 def run(repo: Repo) -> Result:
     res = Result("C09")
     res.explanation = (
-        "Decides the flattening mechanism structurally: (R1) during graph construction every node name reaching a networkx sink or the "
-        "self-edge comparison has passed _flatten_graph_node; (R2) the self-edge test on flattened names dominates add_edge; (R3) flattening "
-        "keeps the first limit+1 dotted components, is the identity without a limit and is a pure function of (name, limit); (R4) the limit "
-        "given to the graph is the user's limit plus the number of dotted components between root_path and module_path, None stays None."
+        "Decides the flattening mechanism: (R1) by data flow from the constructor's module list and the Import accessors, every node name "
+        "reaching the networkx graph during construction has passed a truncation; (R2) every edge insertion is guarded by a test that the two "
+        "(flattened) ends differ, and every other limit-dependent test on a pair of names is (tabulated) the same-node test; (R3) that truncation - whatever its spelling: method, function, partial, lambda - is tabulated over a finite "
+        "table of names and limits and equals 'first limit+1 dotted components', identity without a limit, and shares no state between graphs; "
+        "(R4) tabulated from get_evaluable_architecture down to the constructor call, the graph receives the user's limit plus the number of "
+        "levels between root_path and module_path, None stays None; (R5) the limit does not act on the scanned modules / imports in any other way."
     )
     res.not_decided = "the quotient law as an equality between two scans, and verdict preservation (both relate two runs)."
-    res.trusted_base = ["engine flow analysis / CFG"]
-    T = types_of(repo)
-    g = repo.cls(NXGRAPH, "NetworkxGraph")
-    init = g.methods.get("__init__")
-    flat = g.methods.get("_flatten_graph_node")
-    if init is None or flat is None:
-        raise AnalysisError("NetworkxGraph.__init__ / _flatten_graph_node not found")
-    construction = [f for f in reachable_funcs(repo, [init], byname=False) if f.cls is g and f is not flat]
-    # parameters that carry node names into the construction helpers (annotated Node / list[Node])
-    seeds = {}
+    res.trusted_base = ["engine flow analysis / CFG", "rules/c09_eval.py: finite-domain evaluator of pure str/int computations (whitelisted operations, nothing of pytestarch is imported or run)"]
+    cx = Ctx(repo, res)
+    cons = construction_functions(cx)
+    flow = rule_r1_r3(cx, cons)
+    rule_r2(cx, cons, flow)
+    from .c09_r5 import rule_r5
 
-    def sources(f: FuncInfo, e: ast.expr):
-        if isinstance(e, ast.Attribute) and dotted(e) in ("self._all_modules",):
-            return {"RAW"}
-        if isinstance(e, ast.Call) and isinstance(e.func, ast.Attribute) and e.func.attr in ("importer", "importee", "importer_parent_modules", "importee_parent_modules"):
-            return {"RAW"}
-        if isinstance(e, ast.Call) and dotted(e.func) == "get_parent_modules":
-            return {"RAW"}
-        return None
-
-    def transfer(f: FuncInfo, call: ast.Call, names, args, recv, kwargs):
-        if isinstance(call.func, ast.Attribute) and call.func.attr == flat.name:
-            return {"FLAT"}
-        return None
-
-    flow = Flow(repo, T, Spec(sources=sources, transfer=transfer, param_seeds=seeds, objects_carry=False, scope=lambda f: f in construction))
-    n = 0
-    sink_funcs = set()
-    for f in construction:
-        for node in own_nodes(f.node):
-            args = []
-            what = ""
-            if isinstance(node, ast.Call) and isinstance(node.func, ast.Attribute) and node.func.attr in SINKS and "_graph" in norm(node.func.value):
-                args, what = list(node.args), node.func.attr
-            elif isinstance(node, ast.Compare) and isinstance(node.ops[0], (ast.In, ast.NotIn)) and "_graph" in norm(node.comparators[0]):
-                args, what = [node.left], "membership"
-            elif isinstance(node, ast.Compare) and isinstance(node.ops[0], (ast.Eq, ast.NotEq)) and all("RAW" in flow.tags(x) or "FLAT" in flow.tags(x) for x in [node.left, node.comparators[0]]):
-                args, what = [node.left, node.comparators[0]], "self-edge comparison"
-            for a in args:
-                tags = set(flow.tags(a))
-                if not tags:
-                    continue
-                n += 1
-                sink_funcs.add(f.qualname)
-                ok = tags == {"FLAT"}
-                res.add(
-                    "C09.R1",
-                    repo.key(f, stmt_of(node)) + f" [{what}({norm(a, 30)})]",
-                    ok,
-                    "flattened name" if ok else f"`{norm(a, 40)}` reaches {what} without having passed {flat.name}: with a level limit, nodes/edges below the limit enter the graph (or are looked up) un-truncated",
-                    where(f, node),
-                    kind="flow",
-                )
-    res.floor("C09.R1", 8, n)
-    # ---- R2
-    ce = g.methods.get("_create_edge")
-    if ce is None:
-        raise AnalysisError("NetworkxGraph._create_edge not found")
-    adds = [c for c in calls_in(ce.node) if is_attr_call(c, "add_edge")]
-    if len(adds) != 1:
-        raise AnalysisError("NetworkxGraph._create_edge: add_edge call not found")
-    a0, a1 = sorted([norm(adds[0].args[0]), norm(adds[0].args[1])])
-    gf = guard_formula(ce, adds[0])
-    ok = implies(gf, f_not(atom(f"{a0} == {a1}")))
-    res.add("C09.R2", repo.key(ce, stmt_of(adds[0])) + " [no self-edge]", ok, "an edge is only added between two different (flattened) nodes" if ok else "add_edge is not guarded by the self-edge test: sub modules collapsed into one node import 'themselves'", where(ce, adds[0]), kind="dominance")
-    # ---- R3
-    lim = None
-    rets = [s for s in own_nodes(flat.node) if isinstance(s, ast.Return) and s.value is not None]
-    p = flat.param_names[1]
-    ident = [r for r in rets if dotted(r.value) == p]
-    cut = [r for r in rets if r not in ident]
-    ok_ident = len(ident) == 1 and implies(guard_formula(flat, ident[0]), atom("self._level_limit is None"))
-    res.add("C09.R3", f"{flat.relpath}::{flat.qualname}::identity without limit", ok_ident, "without a limit names are unchanged" if ok_ident else "names are not returned unchanged exactly when no limit is set", where(flat, flat.node), kind="dominance")
-    ok_cut = False
-    detail = "no expression of the form '.'.join(name.split('.')[: limit + 1]) found"
-
-    def matches(v: ast.expr) -> bool:
-        if not (isinstance(v, ast.Call) and isinstance(v.func, ast.Attribute) and v.func.attr == "join" and isinstance(v.func.value, ast.Constant) and v.func.value.value == "." and len(v.args) == 1):
-            return False
-        a = v.args[0]
-        if not (isinstance(a, ast.Subscript) and isinstance(a.slice, ast.Slice) and a.slice.lower is None and a.slice.step is None):
-            return False
-        up = a.slice.upper
-        plus_one = isinstance(up, ast.BinOp) and isinstance(up.op, ast.Add) and sorted([norm(up.left), norm(up.right)]) == ["1", "self._level_limit"]
-        base = a.value
-        if isinstance(base, ast.Name):
-            asg = [s_ for s_ in own_nodes(flat.node) if isinstance(s_, ast.Assign) and dotted(s_.targets[0]) == base.id]
-            parts_src = asg[0].value if len(asg) == 1 else None
-        else:
-            parts_src = base
-        split_ok = isinstance(parts_src, ast.Call) and is_attr_call(parts_src, "split") and dotted(parts_src.func.value) == p and len(parts_src.args) == 1 and isinstance(parts_src.args[0], ast.Constant) and parts_src.args[0].value == "."
-        return plus_one and split_ok
-
-    joins = [c for c in own_nodes(flat.node) if isinstance(c, ast.Call) and isinstance(c.func, ast.Attribute) and c.func.attr == "join"]
-    good = [c for c in joins if matches(c)]
-    if joins and not good:
-        detail = f"truncation is `{norm(joins[0], 80)}`: expected '.'.join(name.split('.')[: limit + 1])"
-    if good and len(joins) == len(good):
-        ok_cut = True
-        detail = "name is cut to its first limit+1 dotted components"
-        for r in cut:
-            v = r.value
-            direct = any(v is c for c in good)
-            via = isinstance(v, ast.Name) and all(any(a_.value is c for c in good) for a_ in own_nodes(flat.node) if isinstance(a_, ast.Assign) and dotted(a_.targets[0]) == v.id)
-            if not (direct or via):
-                res.observe(f"C09.R3: `{header(r)}` in {flat.qualname} returns something other than the truncation expression (judged by the purity obligation)")
-    res.add("C09.R3", f"{flat.relpath}::{flat.qualname}::first limit+1 components", ok_cut, detail, where(flat, flat.node), kind="structural")
-    E = Effects(repo, T)
-    ws = [w for w in E.writes(flat) if w.root_kind in ("self", "classvar", "global", "param")]
-    reads_other = sorted({dotted(n_) for n_ in own_nodes(flat.node) if isinstance(n_, ast.Attribute) and isinstance(n_.ctx, ast.Load) and dotted(n_).startswith("self.") and dotted(n_) not in ("self._level_limit",) and not isinstance(parent(n_), ast.Call)})
-    ok = not ws and not reads_other
-    res.add("C09.R3", f"{flat.relpath}::{flat.qualname}::pure function of (name, limit)", ok, "reads only the name and the limit, writes nothing" if ok else (f"`{header(stmt_of(ws[0].node))}` keeps state while flattening" if ws else f"flattening also depends on {reads_other}") + ": names flattened for one architecture/limit influence another", where(flat, flat.node), kind="effect")
-    # ---- R4
-    gen = repo.func(GG, "generate_graph")
-    ctor = [c for c in calls_in(gen.node) if dotted(c.func) == "NetworkxGraph"]
-    if len(ctor) != 1:
-        raise AnalysisError("generate_graph: NetworkxGraph construction not found")
-    lim_arg = ctor[0].args[2] if len(ctor[0].args) > 2 else next((k.value for k in ctor[0].keywords if k.arg == "level_limit"), None)
-    user_p = next((p_ for p_ in gen.param_names if "level_limit" in p_), None)
-    adj = [s for s in own_nodes(gen.node) if isinstance(s, ast.Assign) and lim_arg is not None and dotted(s.targets[0]) == dotted(lim_arg) and isinstance(s.value, ast.Call)]
-    ok = lim_arg is not None and len(adj) == 1 and user_p is not None and any(dotted(a) == user_p for a in adj[0].value.args) and cfg_of(gen).dominates(adj[0], stmt_of(ctor[0])) and not conds(gen, adj[0])
-    res.add("C09.R4", f"{gen.relpath}::{gen.qualname}::adjusted limit reaches the graph", ok, "the graph receives the limit adjusted for the root/module path difference" if ok else "the limit handed to NetworkxGraph is not the adjusted user limit", where(gen, ctor[0]), kind="flow")
-    if adj:
-        cs, _ = T.callees(gen, adj[0].value, byname_fallback=False)
-        if len(cs) != 1:
-            raise AnalysisError("generate_graph: limit adjustment function not resolved")
-        off = cs[0]
-        lp, dp = off.param_names[0], off.param_names[1]
-        rets = [s for s in own_nodes(off.node) if isinstance(s, ast.Return)]
-        body = [s_ for s_ in off.body if not (isinstance(s_, ast.Expr) and isinstance(s_.value, ast.Constant))]
-        first = body[0] if body else None
-        none_first = (
-            isinstance(first, ast.If) and not first.orelse and norm(first.test) == f"{lp} is None" and len(first.body) == 1 and isinstance(first.body[0], ast.Return)
-            and ((isinstance(first.body[0].value, ast.Constant) and first.body[0].value.value is None) or dotted(first.body[0].value) == lp)
-        )
-        other_none = [r for r in rets if r is not (first.body[0] if none_first else None) and isinstance(r.value, ast.Constant) and r.value.value is None]
-        ok = none_first and not other_none
-        res.add("C09.R4", f"{off.relpath}::{off.qualname}::None stays None", ok, "no limit stays no limit; every other path sees a number" if ok else "a missing limit is not passed through as None (or a number path can see None)", where(off, off.node), kind="dominance")
-        # the offset counts the dotted components of the path difference
-        counts = [c for c in ast.walk(off.node) if isinstance(c, ast.Call) and isinstance(c.func, ast.Attribute) and c.func.attr in ("split", "count") and dotted(c.func.value) == dp and c.args and isinstance(c.args[0], ast.Constant) and c.args[0].value == "."]
-        incr = [s for s in own_nodes(off.node) if isinstance(s, (ast.AugAssign, ast.Assign, ast.Return)) and lp in {n_.id for n_ in ast.walk(s) if isinstance(n_, ast.Name)} and any(isinstance(x, (ast.Add,)) for x in ast.walk(s))]
-        ok = False
-        detail = "offset computation not found"
-        if incr:
-            s0 = incr[0]
-            added = s0.value if isinstance(s0, ast.AugAssign) else s0.value
-            names_ = {n_.id for n_ in ast.walk(added) if isinstance(n_, ast.Name)} - {lp}
-            # resolve one level of locals
-            src_nodes = [added]
-            for nm in names_:
-                for a_ in own_nodes(off.node):
-                    if isinstance(a_, ast.Assign) and dotted(a_.targets[0]) == nm:
-                        src_nodes.append(a_.value)
-            text = " ".join(norm(x, 200) for x in src_nodes)
-            split_len = f"len({dp}.split('.'))" in text
-            count_plus = f"{dp}.count('.') + 1" in text or f"1 + {dp}.count('.')" in text
-            ok = (split_len or count_plus) and bool(counts)
-            gate = guard_formula(off, s0)
-            same = "_actual_difference" in norm(ast.Module(body=[], type_ignores=[])) or True
-            detail = "offset = number of dotted components of the root/module path difference" if ok else f"the limit is raised by `{text[:120]}`, which does not count the '.'-separated components of `{dp}` (a difference of n levels must add n)"
-            # and only when the paths actually differ
-            if ok:
-                diff_guard = [e for e, pol in conds(off, s0) if pol and (dp in norm(e))]
-                ok2 = bool(diff_guard)
-                res.add("C09.R4", f"{off.relpath}::{off.qualname}::offset only when paths differ", ok2, "no offset when root_path and module_path coincide ('.')" if ok2 else "the offset is also added when root_path equals module_path (difference '.')", where(off, s0), kind="dominance")
-        res.add("C09.R4", f"{off.relpath}::{off.qualname}::offset counts dotted components", ok, detail, where(off, off.node), kind="structural")
+    scan_depends = rule_r5(cx)
+    rule_r4(cx, scan_depends)
     return res
